@@ -42,9 +42,25 @@ def build_cover(rng, res):
     import gcmpy
     if src == "regular":
         # every vertex has the same profile (a single joint degree): disjoint k-cliques, a ring of 2-cliques, or both layered
-        kind = rng.choice(["disjoint", "ring", "layered"])
+        kind = rng.choice(["disjoint", "ring", "layered", "twin-columns", "twin-columns"])
         m = rng.randint(3, 12)
-        if kind == "disjoint":
+        if kind == "twin-columns":
+            # two or three clique sizes whose per-vertex count columns are IDENTICAL: every vertex lies in exactly r cliques of each size
+            # (r random partitions of the vertex set per size; prism = triangles + matching is the smallest member)
+            sizes = rng.choice([[2, 3], [2, 4], [3, 4], [2, 3, 4], [2, 5], [3, 6], [2, 3, 6]])
+            unit = 1
+            for z in sizes:
+                unit = unit * z // __import__("math").gcd(unit, z)
+            n = unit * rng.randint(1, 3)
+            r = rng.choice([1, 1, 2])
+            cover = []
+            for z in sizes:
+                for _ in range(r):
+                    perm = list(range(n))
+                    rng.shuffle(perm)
+                    cover += [perm[i:i + z] for i in range(0, n, z)]
+            res.count("covers_with_identical_count_columns_for_different_sizes")
+        elif kind == "disjoint":
             s = rng.choice([2, 3, 4, 5])
             cover = [list(range(i * s, (i + 1) * s)) for i in range(m)]
         elif kind == "ring":
